@@ -3,6 +3,7 @@ package main
 import (
 	"fmt"
 	"go/ast"
+	"go/token"
 	"go/types"
 	"sort"
 	"strings"
@@ -1054,4 +1055,223 @@ func ruleOpsWriters(c *Ctx, r *Report) {
 		r.bad(rule, key, c.at(st), desc, "the whole operator table is replaced")
 	}
 	r.analysed(rule, fmt.Sprintf("%d mutators/assignments", n))
+}
+
+// ---------------------------------------------------------------------------
+// R-OP-DEFINES-ALL (C18; added after seed C18b): op(P, T, Names) makes every name in Names the operator
+// (P, T). In the commit loop of op/3 every iteration reaches the table's define step; an iteration may skip
+// it only across a branch that compares a whole `operator` value (priority, specifier and name together).
+// A skip decided on one field - "same priority, nothing to do" - keeps the old specifier.
+
+func ruleOpDefinesAll(c *Ctx, r *Report) {
+	const rule = "R-OP-DEFINES-ALL"
+	desc := "every iteration of the commit loop of op/3 reaches operators.define"
+	op := c.registeredFn("op", 3)
+	define := c.method("operators", "define")
+	if op == nil || define == nil {
+		r.undecided(rule, "anchor", "-", "locate op/3 and operators.define", "not found")
+		return
+	}
+	n := 0
+	eachInstr(op, func(in ssa.Instruction) {
+		call, ok := in.(*ssa.Call)
+		if !ok || call.Call.StaticCallee() != define {
+			return
+		}
+		n++
+		key := fmt.Sprintf("%s/define#%d", fname(op), n)
+		D := call.Block()
+		// innermost loop header: a block dominating D that D can reach again
+		var H *ssa.BasicBlock
+		for _, b := range op.Blocks {
+			back := false
+			for _, p := range b.Preds {
+				if b.Dominates(p) {
+					back = true
+				}
+			}
+			if b != D && back && b.Dominates(D) && reachableFromAvoiding(D, b, nil) {
+				if H == nil || H.Dominates(b) {
+					H = b
+				}
+			}
+		}
+		if H == nil {
+			r.bad(rule, key, c.at(in), desc, "define is not inside a loop over the names")
+			return
+		}
+		// node-removal search: from the body entry back to the header without entering D
+		reach := func(from, to, avoid *ssa.BasicBlock, stopAtHeader bool) bool {
+			seen := map[*ssa.BasicBlock]bool{}
+			var dfs func(b *ssa.BasicBlock) bool
+			dfs = func(b *ssa.BasicBlock) bool {
+				if b == avoid {
+					return false
+				}
+				if b == to {
+					return true
+				}
+				if seen[b] || (stopAtHeader && b == H) {
+					return false
+				}
+				seen[b] = true
+				cond := ifCond(b)
+				for _, s := range b.Succs {
+					if bo, ok := cond.(*ssa.BinOp); ok && avoid != nil && (bo.Op == token.EQL || bo.Op == token.NEQ) && isEngNamed(bo.X.Type(), "operator") && !isPtr(bo.X.Type()) {
+						continue // whole-operator comparison: either outcome may skip
+					}
+					if dfs(s) {
+						return true
+					}
+				}
+				return false
+			}
+			return dfs(from)
+		}
+		var entry *ssa.BasicBlock
+		for _, s := range H.Succs {
+			if reach(s, D, nil, true) {
+				entry = s
+			}
+		}
+		if entry == nil {
+			r.undecided(rule, key, c.at(in), desc, "cannot locate the loop body")
+			return
+		}
+		skip := reach(entry, H, D, false)
+		if skip {
+			r.bad(rule, key, c.at(in), desc, "an iteration can return to the loop header without passing through define (and not across a whole-operator comparison): that name keeps its old definition")
+		} else {
+			r.ok(rule, key, c.at(in), desc, "cut-set check: removing the define block disconnects the body entry from the back edge", true)
+		}
+	})
+	if n == 0 {
+		r.bad(rule, fname(op)+"/define", c.Pos(op.Pos()), desc, "op/3 never calls operators.define")
+	}
+	r.analysed(rule, fname(op))
+}
+
+// loopIterationSkips: can an iteration of the innermost loop around `anchor` get from the body entry back
+// to the loop header without entering any of the `must` blocks? (block-level node-removal search)
+func loopIterationSkips(fn *ssa.Function, anchor *ssa.BasicBlock, must map[*ssa.BasicBlock]bool) (found bool, skips bool) {
+	var H *ssa.BasicBlock
+	plainReach := func(from, to *ssa.BasicBlock, stopAt *ssa.BasicBlock) bool {
+		seen := map[*ssa.BasicBlock]bool{}
+		var dfs func(b *ssa.BasicBlock) bool
+		dfs = func(b *ssa.BasicBlock) bool {
+			if b == to {
+				return true
+			}
+			if seen[b] || b == stopAt {
+				return false
+			}
+			seen[b] = true
+			for _, s := range b.Succs {
+				if dfs(s) {
+					return true
+				}
+			}
+			return false
+		}
+		for _, s := range from.Succs {
+			if dfs(s) {
+				return true
+			}
+		}
+		return false
+	}
+	for _, b := range fn.Blocks {
+		back := false
+		for _, p := range b.Preds {
+			if b.Dominates(p) {
+				back = true
+			}
+		}
+		if b != anchor && back && b.Dominates(anchor) && plainReach(anchor, b, nil) {
+			if H == nil || H.Dominates(b) {
+				H = b
+			}
+		}
+	}
+	if H == nil {
+		return false, false
+	}
+	var entry *ssa.BasicBlock
+	for _, s := range H.Succs {
+		if s == anchor || plainReach(s, anchor, H) {
+			entry = s
+		}
+	}
+	if entry == nil {
+		return false, false
+	}
+	seen := map[*ssa.BasicBlock]bool{}
+	var dfs func(b *ssa.BasicBlock) bool
+	dfs = func(b *ssa.BasicBlock) bool {
+		if must[b] {
+			return false
+		}
+		if b == H {
+			return true
+		}
+		if seen[b] {
+			return false
+		}
+		seen[b] = true
+		for _, s := range b.Succs {
+			if dfs(s) {
+				return true
+			}
+		}
+		return false
+	}
+	return true, dfs(entry)
+}
+
+// ---------------------------------------------------------------------------
+// R-COMMIT-ALL (C20; added after seed C20b): the commit loop of the loader installs every predicate of
+// the loaded text: each iteration either stores the new definition into VM.procedures or merges its clauses
+// into the existing (multifile) one. No iteration leaves the loop body without a write to the database -
+// a predicate that the text (re)declares without clauses must replace the old definition too.
+
+func ruleCommitAll(c *Ctx, r *Report) {
+	const rule = "R-COMMIT-ALL"
+	desc := "every iteration of the loader's commit loop writes the predicate to the database"
+	compile := c.method("VM", "Compile")
+	if compile == nil {
+		r.undecided(rule, "anchor:Compile", "-", "locate VM.Compile", "not found")
+		return
+	}
+	must := map[*ssa.BasicBlock]bool{}
+	var anchor *ssa.MapUpdate
+	eachInstr(compile, func(in ssa.Instruction) {
+		switch x := in.(type) {
+		case *ssa.MapUpdate:
+			if c.vmFieldOfMap(x.Map) == "procedures" {
+				must[x.Block()] = true
+				if anchor == nil {
+					anchor = x
+				}
+			}
+		case *ssa.Store:
+			if fa, ok := x.Addr.(*ssa.FieldAddr); ok && fieldName(fa) == "clauses" && isEngNamed(deref(fa.X.Type()), "userDefined") {
+				must[x.Block()] = true
+			}
+		}
+	})
+	key := fname(compile) + "/commit-loop"
+	if anchor == nil {
+		r.bad(rule, key, c.Pos(compile.Pos()), desc, "no store into VM.procedures found in Compile")
+		return
+	}
+	found, skips := loopIterationSkips(compile, anchor.Block(), must)
+	switch {
+	case !found:
+		r.bad(rule, key, c.at(anchor), desc, "the store into VM.procedures is not inside a loop over the staged predicates")
+	case skips:
+		r.bad(rule, key, c.at(anchor), desc, "an iteration can return to the loop header without writing: that predicate of the loaded text is silently not installed")
+	default:
+		r.ok(rule, key, c.at(anchor), desc, fmt.Sprintf("node-removal check: without the %d writing blocks the body entry cannot reach the back edge", len(must)), true)
+	}
+	r.analysed(rule, fname(compile))
 }
